@@ -3947,7 +3947,8 @@ public:
 #endif
 
 #if SBEPP_HAS_THREE_WAY_COMPARISON
-    constexpr friend std::strong_ordering
+    // `float`/`double` values are only partially ordered
+    constexpr friend std::compare_three_way_result_t<value_type>
         operator<=>(const optional_base& lhs, const optional_base& rhs) noexcept
     {
         if(lhs && rhs)
